@@ -23,13 +23,13 @@ def modulus_for(bits, salt):
     return n
 
 
-def render_moduli(lines, off=0, rnd=None, noise=False):
+def render_moduli(lines, off=0, rnd=None, noise=False, salt0=0):
     """lines: list of {mtype, tests, tries, size, bits}; returns (text, {modulus int -> 1-based line index}).
     `off` shifts every size (order and differences are what the code looks at)."""
     out, index = [], {}
     for i, ln in enumerate(lines, 1):
         bits = ln["bits"] + off
-        mod = modulus_for(bits, i)
+        mod = modulus_for(bits, i + salt0)
         if mod in index:
             raise ValueError("modulus collision for %d bits (use a larger offset)" % bits)
         index[mod] = i
@@ -73,6 +73,34 @@ def run_moduli(lines, req, off=0, rnd=None, noise=False, calls=1):
         except SSHException:
             got.append(0)
     return got, text
+
+
+def run_moduli_history(rounds, off=0):
+    """ONE ModulusPack; for each (lines, req) in rounds: read_file(rendered lines), then get_modulus(req).
+    Returns per round (got, text): got = 1-based line of THAT round's file, 0 = SSHException, -1 = a modulus that is
+    in no line of that file (moduli differ between rounds), -2 = any other exception"""
+    from paramiko.primes import ModulusPack
+    from paramiko.ssh_exception import SSHException
+    pack = ModulusPack()
+    out = []
+    for k, (lines, req) in enumerate(rounds):
+        text, index = render_moduli(lines, off, salt0=1000 * (k + 1))
+        fd, path = tempfile.mkstemp(prefix="moduli_", dir=os.environ.get("VERIF_TMP"))
+        try:
+            with os.fdopen(fd, "w") as f:
+                f.write(text)
+            pack.read_file(path)
+        finally:
+            os.unlink(path)
+        try:
+            g, p = pack.get_modulus(req[0] + off, req[1] + off, req[2] + off)
+            got = index.get(p, -1)
+        except SSHException:
+            got = 0
+        except Exception:                # noqa: which exception is not the point, that there is no offer is
+            got = -2
+        out.append((got, text))
+    return out
 
 
 # =========================================================================== C05  Negotiate
